@@ -29,7 +29,7 @@ def _default(d: Dict[str, str]):
     raise ValueError(k)
 
 
-def build(m: Dict[str, Any], note_as_object: bool = False):
+def build(m: Dict[str, Any], note_as_object: bool = False, **db_kwargs):
     from pydbml.database import Database
     from pydbml.classes import (Table, Column, Index, Reference, Enum, EnumItem, TableGroup, Project, Expression, Note)
     from pydbml._classes.sticky_note import StickyNote
@@ -38,7 +38,7 @@ def build(m: Dict[str, Any], note_as_object: bool = False):
         if not text:
             return None
         return Note(dec(text)) if note_as_object else dec(text)
-    db = Database(allow_properties=m['allowprops'])
+    db = Database(allow_properties=m['allowprops'], **db_kwargs)
     enums = []
     for e in m['enums']:
         en = Enum(dec(e['name']), [EnumItem(dec(i['name']), note=note(i['note']), comment=_opt(i['comment'])) for i in e['items']],
